@@ -420,6 +420,8 @@ func (c *SimConn) SetDeadline(t time.Time) error {
 func (c *SimConn) SetReadDeadline(t time.Time) error {
 	c.mu.Lock()
 	c.rdeadline = t
+	// a deadline applies to a Read that is already waiting, too: let it look again
+	c.wakeReaderLocked()
 	c.mu.Unlock()
 	return nil
 }
